@@ -99,33 +99,15 @@ func runC03(c *core.Ctx) {
 func (x *c03ctx) resolveReach() bool {
 	c := x.c
 	c.SSA()
-	ents := []struct {
-		name string
-		f    *ssa.Function
-		load bool
-	}{
-		{"NewSchema", c.Func("", "NewSchema"), true},
-		{"(*schema).NewTransform", c.Method("", "schema", "NewTransform"), false},
-		{"(*transform).Read", c.Method("", "transform", "Read"), false},
-		{"(*transform).RawRecord", c.Method("", "transform", "RawRecord"), false},
-		{"(*rawRecord).Raw", c.Method("extensions/omniv21", "rawRecord", "Raw"), false},
-		{"(*rawRecord).Checksum", c.Method("extensions/omniv21", "rawRecord", "Checksum"), false},
+	// entry points by role (shared analysis A1): implementations of the exported interfaces Schema / Transform in
+	// the root package and of schemahandler.RawRecord, plus NewSchema — never unexported type names.
+	es := entries(c, "K0")
+	if es == nil {
+		return false
 	}
-	ok := true
-	var loadRoots, runRoots []*ssa.Function
-	for _, en := range ents {
-		if en.f == nil {
-			c.Unresolved("K0", "entry point "+en.name, "entry point not found")
-			ok = false
-			continue
-		}
-		if en.load {
-			loadRoots = append(loadRoots, en.f)
-		} else {
-			runRoots = append(runRoots, en.f)
-		}
-	}
-	if !ok {
+	loadRoots, runRoots := es.loadRoots, es.runRoots
+	if len(runRoots) < 5 {
+		c.Unresolved("K0", "entry points", fmt.Sprintf("only %d run-set entry points resolved (NewTransform, Read, RawRecord, Raw, Checksum expected)", len(runRoots)))
 		return false
 	}
 	extra := x.reflectEdges()
